@@ -170,4 +170,94 @@ theorem byte_parser_is_record_machine (P : Profile) (limit : Nat) (cont : DecSt 
         e.err = (exitOf o).err :=
   run_items P limit cont its fuel st n s tail hfit hs hl hn
 
+/-! ### compressed-timestamp records: what the fields of the record itself are decoded against -/
+
+theorem hb_local (l off : Nat) (hl : l < 4) (hoff : off < 32) : (0x80 + l * 32 + off) / 32 % 4 = l := by omega
+theorem hb_off (l off : Nat) (hoff : off < 32) : (0x80 + l * 32 + off) % 32 = off := by omega
+
+/-- A compressed-timestamp record of a message without a timestamp field is an ordinary record read
+    *after* the reference was advanced by the header's offset: every field of the record — a local
+    timestamp in particular — is decoded against the record's own time, not the previous record's. -/
+theorem compressed_fields_see_advanced_reference (P : Profile) (l off : Nat) (hl : l < 4) (hoff : off < 32)
+    (fs dev : List Bytes) (st : DecSt) (href : st.timestamp ≠ 0) (dm : DefMsg)
+    (hd : st.defs.getD l none = some dm)
+    (hctor : P.known dm.global = true → ∃ pm, P.msg? dm.global = some pm ∧ pm.hasCtor = true)
+    (hno : P.getField dm.global fieldNumTimeStamp = none) :
+    stepData P (0x80 + l * 32 + off) true fs dev st =
+      stepData P l false fs dev { st with timestamp := tsAdvance st.timestamp st.lastOff off, lastOff := off } := by
+  unfold stepData
+  have e1 := hb_local l off hl hoff
+  have e2 := hb_off l off hoff
+  have e3 : l % 16 = l := by omega
+  simp only [e1, e2, e3, if_true, Bool.true_and, Bool.false_and, href, ne_eq, not_false_eq_true, decide_true, hd, hno]
+  have hd' : st.defs[l]?.getD none = some dm := by
+    rw [← List.getD_eq_getElem?_getD]; exact hd
+  cases hk : P.known dm.global with
+  | false => simp [hd', hk]
+  | true =>
+    obtain ⟨pm, hpm, hc⟩ := hctor hk
+    simp [hd', hk, hpm, hc]
+
+/-- an ordinary data record of local type `l` whose fresh all-invalid message is passed through
+    `pre` before the fields are read (`pre = id`: `stepData` itself, `stepDataPreset_id`) -/
+def stepDataPreset (P : Profile) (l : Nat) (pre : Msg → Msg) (fields dev : List Bytes) (st : DecSt) : StepRes :=
+  match st.defs.getD l none with
+  | none => .stop (fail st .other)
+  | some dm =>
+    let known := P.known dm.global
+    let ctor := match P.msg? dm.global with
+      | some pm => if pm.hasCtor then some (Msg.mk dm.global pm.invalid) else none
+      | none => none
+    if known ∧ ctor.isNone then .stop (panicOut st)
+    else
+      let m : Option Msg := if known then ctor.map pre else none
+      let st := if !known then { st with unkM := bump dm.global st.unkM } else st
+      match stepFields P dm known dm.fields fields m st with
+      | .fail o => .stop o
+      | .ok m st =>
+        let st := stepDev dm.dev dev st
+        match addMsg P m st with
+        | none => .stop (panicOut st)
+        | some st => .ok st
+
+theorem stepDataPreset_id (P : Profile) (l : Nat) (hl : l < 16) (fs dev : List Bytes) (st : DecSt) :
+    stepDataPreset P l id fs dev st = stepData P l false fs dev st := by
+  unfold stepDataPreset stepData
+  have e3 : l % 16 = l := by omega
+  simp only [e3, Bool.false_and, Bool.false_eq_true, if_false, Option.map_id, id_eq]
+  cases st.defs.getD l none with
+  | none => rfl
+  | some dm =>
+    simp only []
+    cases P.known dm.global <;> cases P.msg? dm.global <;> simp <;> rfl
+
+/-- The same for a message that has a timestamp field: the compressed record is the ordinary record,
+    read after the reference was advanced, into a message whose timestamp already holds the
+    advanced reference. Its other fields — `local_timestamp` of activity or monitoring_info, say —
+    are therefore decoded against the record's own time. -/
+theorem compressed_record_is_plain_record_at_its_time (P : Profile) (l off : Nat) (hl : l < 4) (hoff : off < 32)
+    (fs dev : List Bytes) (st : DecSt) (href : st.timestamp ≠ 0) (dm : DefMsg) (pm : PMsg) (pf : PField)
+    (hd : st.defs.getD l none = some dm) (hk : P.known dm.global = true)
+    (hpm : P.msg? dm.global = some pm) (hc : pm.hasCtor = true)
+    (hf : P.getField dm.global fieldNumTimeStamp = some pf) (hlay : pm.layout[pf.sindex]? = some .time) :
+    stepData P (0x80 + l * 32 + off) true fs dev st =
+      stepDataPreset P l
+        (fun m => { m with vals := setAt m.vals pf.sindex (.t (Int.ofNat (tsAdvance st.timestamp st.lastOff off)) 0 0) })
+        fs dev { st with timestamp := tsAdvance st.timestamp st.lastOff off, lastOff := off } := by
+  unfold stepData stepDataPreset
+  have e1 := hb_local l off hl hoff
+  have e2 := hb_off l off hoff
+  have hd' : st.defs[l]?.getD none = some dm := by
+    rw [← List.getD_eq_getElem?_getD]; exact hd
+  simp [e1, e2, href, hd', hk, hpm, hc, hf, hlay]
+  rfl
+
+/-- non-vacuity on the regenerated profile: activity (34) has a timestamp field in a `time` slot, a
+    constructor, and a local-timestamp field -/
+example : (match Gen.profile.msg? 34, Gen.profile.getField 34 fieldNumTimeStamp with
+    | some pm, some pf => pm.hasCtor && Gen.profile.known 34 && (pm.layout[pf.sindex]? == some .time) &&
+        (pm.fields.any fun lf => tcKind lf.tcode == .timeLocal)
+    | _, _ => false) = true := by
+  decide +kernel
+
 end Fit.Props.C12
